@@ -3,7 +3,10 @@
 (* predicts, operation by operation, the SIZES of the real instance's     *)
 (* per-stream tables (read through the repository's verif-tagged          *)
 (* accessors), so that recorded executions are validated against the      *)
-(* specification's state and not only through probes.                     *)
+(* specification's state and not only through probes.  A disagreement is  *)
+(* a DIAGNOSTIC (code diag.state), never a verdict: how many entries a    *)
+(* table holds is the implementation's business (an encoder that gives    *)
+(* repeated type names by reference, or resets lazily, keeps C11 true).   *)
 (*   values  1 "scalar"   2 Small by value   3 p = pointer to a Small    *)
 (*           4 q = pointer to a pairP holding p, a 3-element list, a Custom  *)
 (*           5 an empty list of strings   6 l = a list holding p twice      *)
@@ -58,7 +61,7 @@ RECURSIVE StateFold(_,_,_,_,_)
 StateFold(kind, ops, obs, k, s) ==
   IF k > Len(ops) THEN {}
   ELSE LET s2 == Step(kind, s, ops[k]) IN
-       (IF Agrees(kind, s2, obs[k]) THEN {} ELSE {<<"C11.state", k>>})
+       (IF Agrees(kind, s2, obs[k]) THEN {} ELSE {<<"diag.state", k>>})
        \cup StateFold(kind, ops, obs, k + 1, s2)
 StateCodes(kind, ops, obs) == StateFold(kind, ops, obs, 1, A0)
 =======================================================================
